@@ -226,6 +226,13 @@ pub fn check(v: &View) -> Vec<Violation> {
                 }
             }
         }
+        // the converse of "abandon exactly those that exceed the limit": an actor with a handler
+        // limit does not end as failed when every invocation ran to its end (and nothing else
+        // was injected) - e.g. a handler that completes in the very poll in which the deadline is
+        // noticed is either completed or abandoned, not both
+        if let (Some(t), true) = (spec.effective_timeout(), a.dead.is_some() && !v.graceful(a) && !v.fault_injected(a) && v.out.outcome.cap_phase == 0) {
+            out.push(violation(P, "failed-although-nothing-abandoned", if spec.effective_fail_on_timeout() { "fail" } else { "continue" }, format!("actor {aidx} (timeout {t}): terminated as failed (how {:?}) although every handler invocation ran to completion and no failure was injected", a.how)));
+        }
         // fail_on_timeout: awaiters see the failure
         if spec.effective_fail_on_timeout() && first_abandon.is_some() {
             for o in v.ops.iter().filter(|o| o.target == Some(aidx) && matches!(o.inner, Op::Await { .. }) && o.ended()) {
